@@ -366,6 +366,61 @@ func ruleRestC06(c *Ctx, u *Universe) {
 	} else {
 		R.lost("C06.intact", "pkg/runtime.Scope.SetValue")
 	}
+	// ---- C06.visible: a lookup only sees live symbols - every element of locals / values read by a function that
+	// does not itself change localCount is read at an index below localCount (symbols of ended blocks stay in the
+	// slices until their slot is reused)
+	nVis := 0
+	for _, g := range u.srcFuncs("pkg/runtime") {
+		if g.Signature.Recv() == nil || !namedTypeIs(g.Signature.Recv().Type(), "pkg/runtime", "Scope") {
+			continue
+		}
+		storesCount := false
+		for _, in := range instrsOf(g) {
+			if st, ok := in.(*ssa.Store); ok {
+				if fa, ok := st.Addr.(*ssa.FieldAddr); ok && fieldAddrName(fa) == "Scope.localCount" {
+					storesCount = true
+				}
+			}
+		}
+		if storesCount {
+			continue
+		}
+		pr := newBProver(g)
+		for _, in := range instrsOf(g) {
+			ia, ok := in.(*ssa.IndexAddr)
+			if !ok {
+				continue
+			}
+			fld := containerFieldOf(ia.X)
+			if fld != "Scope.locals" && fld != "Scope.values" {
+				continue
+			}
+			nVis++
+			// reference: the localCount field of the same scope
+			un, _ := ia.X.(*ssa.UnOp)
+			fa, _ := un.X.(*ssa.FieldAddr)
+			var cntField int = -1
+			if st, isS := fa.X.Type().Underlying().(*types.Pointer).Elem().Underlying().(*types.Struct); isS {
+				for i := 0; i < st.NumFields(); i++ {
+					if fieldName(st.Field(i)) == "localCount" {
+						cntField = i
+					}
+				}
+			}
+			okV := false
+			if cntField >= 0 {
+				ref := bref{fieldBase: fa.X, field: cntField, raw: true}
+				if c, ok := pr.upper(ia.Index, ref, bpoint{b: ia.Block()}, map[ssa.Value]bool{}); ok && c <= -1 {
+					okV = true
+				}
+			}
+			R.check(okV, "C06.visible", u.fname(g)+":"+fld+"["+ia.Index.Name()+"]", u.pos(ia.Pos()), "read below localCount (live symbols only)", "an element of "+fld+" is read at an index that is not provably below localCount: symbols of blocks that already ended can be found (a name stays usable after its block, or a dead inner declaration keeps shadowing)")
+		}
+	}
+	if nVis < 3 {
+		R.viol("C06.visible", "instances", "", fmt.Sprintf("expected at least 3 reads of Scope.locals / Scope.values in lookup functions, found %d", nVis))
+	}
+
 	if f := u.ssaFunc("pkg/runtime", "Scope.declareValue"); f != nil {
 		// the store of the new symbol (append to locals) is not reachable from the duplicate-found edge
 		var dupIf *ssa.If
@@ -530,4 +585,17 @@ func nameOrigin(u *Universe, v ssa.Value) string {
 		return os[0]
 	}
 	return "?"
+}
+
+// containerFieldOf: "Type.field" when v is a load of that field
+func containerFieldOf(v ssa.Value) string {
+	un, ok := v.(*ssa.UnOp)
+	if !ok || un.Op != token.MUL {
+		return ""
+	}
+	fa, ok := un.X.(*ssa.FieldAddr)
+	if !ok {
+		return ""
+	}
+	return fieldAddrName(fa)
 }
